@@ -57,13 +57,15 @@ def build_extra(kind, flavour='rel'):
     out_dir = '%s/%s' % (BUILD, kind); os.makedirs(out_dir, exist_ok=True)
     exe = '%s/drv_%s' % (out_dir, kind)
     san = '-O1 -g -fsanitize=address,undefined -fno-sanitize-recover=all' if 'san' in flavour.split('+') else '-O1'
+    if 'tsan' in flavour.split('+'):
+        san = '-O1 -g -fsanitize=thread'; exe += '_tsan'
     if kind == 'nostl':
         # the class under test is compiled here from /repo/src/cplusplus/ascon-byte-array.cpp: always
         # instrumented (a write one past a heap block lands in allocator slack otherwise); the library
         # it links for the helper functions may be the plain build
         san = '-O1 -g -fsanitize=address,undefined -fno-sanitize-recover=all'
     if kind == 'cxx':
-        cmd = 'g++ -std=c++11 %s -Wall -DDRV_EXTRA_ONLY -DHAVE_CONFIG_H -I%s/src -I%s -I%s/harness %s/harness/drv_main.cpp %s/harness/cxx/drv_cxxhash.cpp %s/src/libascon_static.a -o %s' % (
+        cmd = 'g++ -std=c++11 %s -Wall -DDRV_EXTRA_ONLY -DHAVE_CONFIG_H -I%s/src -I%s -I%s/harness %s/harness/drv_main.cpp %s/harness/cxx/drv_cxxhash.cpp %s/src/libascon_static.a -lpthread -o %s' % (
             san, REPO, lib, ROOT, ROOT, ROOT, lib, exe)
     elif kind == 'nostl':
         cmd = 'g++ -std=c++11 %s -Wall -DDRV_EXTRA_ONLY -DASCON_NO_STL=1 -DHAVE_CONFIG_H -I%s/src -I%s -I%s/harness %s/harness/drv_main.cpp %s/harness/cxx/drv_bytearray.cpp %s/src/cplusplus/ascon-byte-array.cpp %s/src/libascon_static.a -o %s' % (
